@@ -181,7 +181,14 @@ pub fn execute_c14(plan: &Plan) -> Outcome {
                     let mut req = vec![5, 1, 0, 3, name.len() as u8];
                     req.extend_from_slice(&name);
                     req.extend_from_slice(&port.to_be_bytes());
-                    s.write_all(&req).await.map_err(|e| e.to_string())?;
+                    // every other case the request arrives in two segments, cut at a point drawn from the case (inside the
+                    // name, before or inside the port): the address is what was sent, not what the first segment held
+                    let cut = if plan.seed % 2 == 1 && req.len() > 6 { 5 + (plan.net_seed as usize % (req.len() - 5)) } else { req.len() };
+                    s.write_all(&req[..cut]).await.map_err(|e| e.to_string())?;
+                    if cut < req.len() {
+                        tokio::time::sleep(Duration::from_millis(700)).await;
+                        s.write_all(&req[cut..]).await.map_err(|e| e.to_string())?;
+                    }
                     let mut head = [0u8; 10];
                     tokio::time::timeout(Duration::from_secs(35), s.read_exact(&mut head)).await.map_err(|_| "no command reply".to_owned())?.map_err(|e| format!("command reply: {e}"))?;
                     if head[1] != 0 {
